@@ -369,7 +369,9 @@ class ComponentLevel3( ComponentLevel2 ):
             if v not in visited:
               pred[v] = u
               Q.append( v )
-            elif v is not pred[u]:
+            # The root of the search has no predecessor: it can only see a
+            # visited neighbor if it is connected to itself
+            elif v is not pred.get( u ):
               raise InvalidConnectionError(repr(v)+" is in a connection loop.")
         if len(net) == 1:
           continue
